@@ -3,6 +3,7 @@ package checks
 import (
 	"errors"
 	"fmt"
+	"net/http"
 	"net/url"
 	"path"
 	"strings"
@@ -42,6 +43,15 @@ func c08Unit(c *RunCtx, unit int) {
 						for mp := 0; mp < 2; mp++ {
 							for si, so := range stor {
 								h := w.AB.LoadClientStateMiddleware(authboss.MountedMiddleware2(w.AB, mp == 1, authboss.MWRequirements(reqs), fl)(w.ProbeHandler("c08")))
+								// the deprecated bool-flag wrappers express the same requirements for two of the refusal modes
+								var hOld http.Handler
+								if fi != 2 {
+									if mp == 1 {
+										hOld = w.AB.LoadClientStateMiddleware(authboss.MountedMiddleware(w.AB, true, fi == 1, reqs&1 != 0, reqs&2 != 0)(w.ProbeHandler("c08")))
+									} else {
+										hOld = w.AB.LoadClientStateMiddleware(authboss.Middleware(w.AB, fi == 1, reqs&1 != 0, reqs&2 != 0)(w.ProbeHandler("c08")))
+									}
+								}
 								cell := fmt.Sprintf("uid=%d half=%d 2fa=%d reqs=%d fail=%s mountPathed=%d mount=%q storage=%s mode=%s", ui, half, two, reqs, failName[fi], mp, mount, so, modeOf(cfg))
 								c.Stats.Count("cells")
 								// targets: a seeded sample of 5 plus the plain one
@@ -81,6 +91,24 @@ func c08Unit(c *RunCtx, unit int) {
 										c.Stats.Violations = append(c.Stats.Violations, sim.VioRec{Violation: *v, Index: unit, Cfg: cfg.String(), History: []string{cell, "GET " + trunc(tgt, 200)},
 											Detail: fmt.Sprintf("status=%d location=%q body=%q probe=%v panic=%q", rec.Status, rec.Location, trunc(rec.RespBody, 200), rec.Probe.Ran, rec.Panic)})
 										return
+									}
+									if hOld != nil && tgt == "/p" {
+										b2 := b.Clone()
+										switch si {
+										case 1:
+											w.FaultOps = map[string]error{"Load": errors.New("db down")}
+										case 2:
+											w.FaultOps = map[string]error{"Load": authboss.ErrUserNotFound}
+										}
+										rec2 := w.DoOn(hOld, b2, world.Req{Method: "GET", Path: tgt})
+										c.Stats.Evaluations++
+										c.Stats.Count("deprecated-api-cells")
+										if v := c08Judge(w, rec2, uid, half == 1, two == 1, reqs, fi, mp == 1, so, tgt); v != nil {
+											v.Sig += "|deprecated-bool-flag-api"
+											v.Msg = "deprecated Middleware/MountedMiddleware, cell[" + cell + "]: " + v.Msg
+											c.Stats.Violations = append(c.Stats.Violations, sim.VioRec{Violation: *v, Index: unit, Cfg: cfg.String(), History: []string{cell, "GET " + tgt}})
+											return
+										}
 									}
 									out := "ran"
 									if !rec.Probe.Ran {
@@ -172,10 +200,10 @@ func c08Judge(w *world.World, rec *world.Rec, uid string, half, two bool, reqs, 
 func init() {
 	register(&Check{
 		ID: "C08", Level: "exploration", Exhaustive: true,
-		Rule:        "complete enumeration of the truth table: session uid {absent, unknown to storage, known} x halfauth mark x 2FA mark x requirement bits {0,1,2,3} x refusal mode {404, redirect, 401} x mountPathed x Mount {'', '/auth'} x storage outcome {ok, generic error, not-found} x body mode {form, JSON} = 3456 cells, every one executed against the real MountedMiddleware2 behind LoadClientStateMiddleware with hand-made server-side session contents; each cell with the plain target plus 5 seeded targets from a corpus of hostile paths (spaces, non-ASCII, dot segments, double slashes, 300-byte paths, encoded '/', '?', ';') and queries ('&', '=', '%23', '+', repeated keys, bad escapes, 800 bytes, an own redir=). Oracle: handler ran <=> known user & requirements & storage ok; otherwise exactly 404 / 401 / redirect to <Mount>/login whose decoded redir equals path[+mount]?rawquery / 500 on storage error. exhaustive=true refers to the cell table; targets are sampled. distinct_nontrivial = distinct (cell → outcome) pairs.",
+		Rule:        "complete enumeration of the truth table: session uid {absent, unknown to storage, known} x halfauth mark x 2FA mark x requirement bits {0,1,2,3} x refusal mode {404, redirect, 401} x mountPathed (and, for the two refusal modes they can express, the deprecated bool-flag wrappers Middleware/MountedMiddleware against the same table) x Mount {'', '/auth'} x storage outcome {ok, generic error, not-found} x body mode {form, JSON} = 3456 cells, every one executed against the real MountedMiddleware2 behind LoadClientStateMiddleware with hand-made server-side session contents; each cell with the plain target plus 5 seeded targets from a corpus of hostile paths (spaces, non-ASCII, dot segments, double slashes, 300-byte paths, encoded '/', '?', ';') and queries ('&', '=', '%23', '+', repeated keys, bad escapes, 800 bytes, an own redir=). Oracle: handler ran <=> known user & requirements & storage ok; otherwise exactly 404 / 401 / redirect to <Mount>/login whose decoded redir equals path[+mount]?rawquery / 500 on storage error. exhaustive=true refers to the cell table; targets are sampled. distinct_nontrivial = distinct (cell → outcome) pairs.",
 		Units:       func(t string) int { return 4 },
 		Run:         c08Unit,
-		Floors:      func(t string) map[string]int { return map[string]int{"cells": 3456} },
+		Floors:      func(t string) map[string]int { return map[string]int{"cells": 3456, "deprecated-api-cells": 2304} },
 		Assumptions: []string{"for mountPathed routes the library path.Join()s mount and path; targets whose path that call would normalise (dot segments, '//', trailing '/') are only required to keep their query"},
 	})
 }
